@@ -37,9 +37,9 @@ kernel bv_tmin: pybrops/popgen/bvmat/DenseBreedingValueMatrix.py :: DenseBreedin
 kernel bv_trange: pybrops/popgen/bvmat/DenseBreedingValueMatrix.py :: DenseBreedingValueMatrix.trange  sha=072f54552020e9c5  ok
     slice: targets ['out'] -> out
     out of scope (parameter m): `numpy.ptp(self._mat, axis=self.taxa_axis)`
-kernel bv_tmean: pybrops/popgen/bvmat/DenseBreedingValueMatrix.py :: DenseBreedingValueMatrix.tmean  sha=32f7077cb4cf007d  FAILED
+kernel bv_tmean: pybrops/popgen/bvmat/DenseBreedingValueMatrix.py :: DenseBreedingValueMatrix.tmean  sha=42a5d8c5e1e886cc  ok
     slice: targets ['out'] -> out
-    bv_tmean (pybrops/popgen/bvmat/DenseBreedingValueMatrix.py:DenseBreedingValueMatrix.tmean): Untranslatable: name `self._scale` is neither a declared parameter nor assigned in the kernel
+    out of scope (parameter m): `self._mat.mean(axis=self.taxa_axis)`
 kernel bv_tstd: pybrops/popgen/bvmat/DenseBreedingValueMatrix.py :: DenseBreedingValueMatrix.tstd  sha=f20c99084474df12  ok
     out of scope (parameter nstd): `numpy.nanstd(self._mat, axis=self.taxa_axis)`
     out of scope (parameter std): `self._mat.std(axis=self.taxa_axis)`
@@ -156,7 +156,9 @@ def bv_trange {α : Type} [Mul α] (unscale : Bool) (scale : α) (m : α) : α :
   out
 
 /-- pybrops/popgen/bvmat/DenseBreedingValueMatrix.py :: DenseBreedingValueMatrix.tmean; model counterpart: BVMat tmean -/
--- NOT TRANSLATED: bv_tmean (pybrops/popgen/bvmat/DenseBreedingValueMatrix.py:DenseBreedingValueMatrix.tmean): Untranslatable: name `self._scale` is neither a declared parameter nor assigned in the kernel
+def bv_tmean {α : Type} (unscale : Bool) (location : α) (m : α) : α :=
+  let out := (if (unscale = true) then location else m)
+  out
 
 /-- pybrops/popgen/bvmat/DenseBreedingValueMatrix.py :: DenseBreedingValueMatrix.tstd; model counterpart: BVMat tstd -/
 def bv_tstd {α : Type} [Mul α] (unscale : Bool) (scale : α) (nstd : α) (std : α) : α :=
